@@ -4,6 +4,7 @@ CONSTANTS
   RedirCodes = {301, 302, 307}
   Kinds = {"rel", "abs"}
   Finals <- MCFinals
+  PathModes <- MCPathModes
   FollowModes = {TRUE, FALSE}
 SPECIFICATION Spec
 INVARIANTS EndsAtFinal OneRequestPerHop NoFollowReturnsFirst NeverLost NoError
